@@ -249,7 +249,7 @@ func genCoreProgram(r *Rng) []byte {
 	n := 4 + r.Intn(22)
 	kmax := 40
 	if len(coreAskTargets) > 0 {
-		kmax = 52
+		kmax = 56
 	}
 	addrWord := func(list []string) *big.Int {
 		w := common.HexToAddress(list[r.Intn(len(list))]).Big()
@@ -261,8 +261,69 @@ func genCoreProgram(r *Rng) []byte {
 	}
 	for i := 0; i < n; i++ {
 		switch k := r.Intn(kmax); {
-		case k >= 46: // BALANCE / EXTCODESIZE / EXTCODECOPY of some account
-			switch r.Intn(3) {
+		case k >= 52: // CREATE / CREATE2 of a small contract, its address made visible, then called
+			rt := [][]byte{{0x60, byte(r.Intn(256)), 0x60, 0x00, 0x55, 0x00}, {0x33, 0x60, 0x01, 0x55, 0x34, 0x00}, {0x30, 0x60, 0x02, 0x55, 0x00, 0x00}}[r.Intn(3)]
+			var init []byte
+			switch r.Intn(6) {
+			case 0:
+				init = []byte{0xfe}
+			case 1:
+				init = []byte{0x60, 0x2a, 0x60, 0x00, 0x53, 0x60, 0x01, 0x60, 0x00, 0xfd} // REVERT with one byte of data
+			case 2:
+				init = nil
+			default:
+				init = append([]byte{0x65}, rt...)
+				init = append(init, 0x60, 0x00, 0x52, 0x60, 0x06, 0x60, 0x1a, 0xf3)
+			}
+			word := make([]byte, 32)
+			copy(word, init)
+			off := int64(r.Intn(3)) * 32
+			a.op(0x7f)
+			a.op(word...)
+			a.pushN(off)
+			a.op(0x52)
+			two := r.Chance(1, 3)
+			if two {
+				push(big.NewInt(int64(r.Intn(3)))) // salt
+			}
+			push(big.NewInt(int64(len(init))))
+			push(big.NewInt(off))
+			v := small(3)
+			if r.Chance(1, 12) {
+				v = big.NewInt(3000000)
+			}
+			push(v)
+			if two {
+				a.op(0xf5)
+				depth -= 3
+			} else {
+				a.op(0xf0)
+				depth -= 2
+			}
+			a.op(0x80) // DUP1: the address
+			depth++
+			visible()
+			if r.Chance(2, 3) {
+				// call what was created
+				a.pushN(0)
+				a.pushN(0)
+				a.pushN(0)
+				a.pushN(0)
+				push(small(2))
+				depth += 4
+				a.op(0x85) // DUP6: the address
+				depth++
+				push(new(big.Int).Lsh(big.NewInt(1), 62))
+				a.op(0xf1)
+				depth -= 6
+				visible()
+			}
+		case k >= 46: // BALANCE / EXTCODESIZE / EXTCODECOPY / EXTCODEHASH of some account
+			switch r.Intn(4) {
+			case 3:
+				push(addrWord(coreAskTargets))
+				a.op(0x3f)
+				visible()
 			case 0:
 				push(addrWord(coreAskTargets))
 				a.op(0x31)
@@ -367,13 +428,24 @@ func genCoreProgram(r *Rng) []byte {
 			push(coreOffset(r))
 			a.op([]byte{0x52, 0x53}[r.Intn(2)])
 			depth -= 2
-		case k < 13: // MLOAD, MSIZE
-			if r.Bool() {
+		case k < 13: // MLOAD, MSIZE, SHA3
+			switch r.Intn(3) {
+			case 0:
 				push(coreOffset(r))
 				a.op(0x51)
-			} else {
+			case 1:
 				a.op(0x59)
 				depth++
+			default:
+				ln := small(200)
+				if r.Chance(1, 6) {
+					ln = big.NewInt(int64([]int{0, 135, 136, 137, 272}[r.Intn(5)])) // around the rate of the sponge
+				}
+				push(ln)
+				push(coreOffset(r))
+				a.op(0x20)
+				depth--
+				visible()
 			}
 		case k < 16: // SSTORE
 			push(interestingWord(r))
@@ -392,6 +464,14 @@ func genCoreProgram(r *Rng) []byte {
 			}
 			a.op(0x54)
 		case k < 20: // environment and block
+			if r.Chance(1, 6) {
+				// BLOCKHASH of a block around the window of 256
+				n := int64(300 + r.Intn(10))
+				push(big.NewInt(n - int64([]int{0, 1, 2, 255, 256, 257, 258, 400}[r.Intn(8)])))
+				a.op(0x40)
+				visible()
+				break
+			}
 			a.op([]byte{0x30, 0x32, 0x33, 0x34, 0x36, 0x38, 0x3a, 0x3d, 0x41, 0x42, 0x43, 0x44, 0x45, 0x58, 0x33, 0x34, 0x30}[r.Intn(17)])
 			depth++
 			visible()
@@ -547,6 +627,12 @@ func genCoreProgram(r *Rng) []byte {
 		if depth < 0 {
 			depth = 0
 		}
+	}
+	if len(coreAskTargets) > 0 && r.Chance(1, 7) {
+		// the contract destroys itself in favour of some account (itself included)
+		a.push(addrWord(coreAskTargets))
+		a.op(0xff)
+		return a.finish()
 	}
 	switch r.Intn(7) {
 	case 0:
